@@ -7,6 +7,7 @@ import (
 
 	"verifharness/hx"
 
+	_ "verifharness/assoc"
 	_ "verifharness/bind"
 	_ "verifharness/c17"
 	_ "verifharness/cond"
